@@ -21,7 +21,7 @@ EXPLANATION = (
     '(c) every concrete primitive implements _decode/encode/dna_spec; (d) '
     'candidates are validated before a value spec is bound, and bound tests '
     'use `is not None` (0 is a bound).  The decode/encode inverse law is not decided.')
-FLOORS = {'C13.a': 2, 'C13.b': 3, 'C13.c': 2, 'C13.d': 2, 'C13.e': 3, 'C13.z': 2, 'C13.f': 1}
+FLOORS = {'C13.r': 15, 'C13.a': 2, 'C13.b': 3, 'C13.c': 2, 'C13.d': 2, 'C13.e': 3, 'C13.z': 2, 'C13.f': 1}
 FILES = ['pyglove/core/hyper/object_template.py', 'pyglove/core/hyper/categorical.py',
          'pyglove/core/hyper/numerical.py', 'pyglove/core/hyper/custom.py',
          'pyglove/core/hyper/base.py', 'pyglove/core/hyper/iter.py',
@@ -289,6 +289,8 @@ def rule_f(ctx):
 
 def run(ctx):
   ctx.consult(*FILES)
+  from sa.rejections import REJECTIONS as _REJ
+  S.rejection_census_obligations(ctx, 'C13.r', _REJ['C13'], floor=15)
   rule_a(ctx)
   rule_b(ctx)
   rule_c(ctx)
